@@ -450,8 +450,19 @@ class Ctx:
         self.pc.append(constraint)
 
     # -- assumptions -----------------------------------------------------
-    def assume(self, e, check=True):
-        """Add a constraint to the path; kill the path if it becomes infeasible."""
+    def assume(self, e, check=True, contract=None):
+        """Add a constraint to the path; kill the path if it becomes infeasible.
+
+        `contract`: name of the stub whose contract this assumption states.  If the assumption cannot be met on a
+        feasible path, the stub is cutting real behaviour away (its contract promises something the real callee
+        cannot deliver there): recorded as event 'contract_cut:<name>' so that checks can report it."""
+        if contract is not None and not FP_SOLVER[0] and not isinstance(e, bool):
+            st, _ = solve(self.pc + [e], self.stats, self.timeout_ms)
+            if st == "unsat":
+                st0, m0 = solve(self.pc, self.stats, self.timeout_ms)
+                if st0 == "sat":
+                    self.event("contract_cut:" + contract, model={str(d): str(m0[d]) for d in m0.decls()[:24]})
+                raise PathAbort("contract assumption of %s cannot be met" % contract)
         if isinstance(e, bool):
             if not e:
                 raise PathAbort("assume(False)")
